@@ -379,6 +379,20 @@ func (x *Exec) evalIdent(env *Env, name string) Val {
 		if v, ok := env.fr.params[name]; ok {
 			return v
 		}
+		// a renamed parameter: the parameter at the index the name had on the unchanged tree, if its type is the same
+		if i := x.E.paramHintIndex(env.fr.fn, name); i >= 0 && i < len(env.fr.fn.Params) {
+			pn := env.fr.fn.Params[i]
+			known := false
+			for _, h := range x.E.hints[fnKey(env.fr.fn)] {
+				if h.Name == pn.Name() {
+					known = true
+				}
+			}
+			if v, ok := env.fr.params[pn.Name()]; ok && !known {
+				x.E.noteAssumption(fmt.Sprintf("RENAMED PARAMETER: the contract of %s names %q; parameter %d is now called %q and is taken for it", fnKey(env.fr.fn), name, i, pn.Name()))
+				return v
+			}
+		}
 		for i, fv := range env.fr.fn.FreeVars {
 			if fv.Name() == name && i < len(env.fr.freeVars) {
 				return x.loadAddr(env.st, x.ptrAddr(env.fr.freeVars[i]))
